@@ -111,7 +111,7 @@ theorem Preserved.trans {α : Type} {s t u : St α} (h1 : Preserved s t) (h2 : P
 /-- If the checker accepts a program from the abstraction of the concrete environment, then every execution
     (whatever is written, whichever inner configuration the window function runs under) ends in an environment whose
     abstraction the checker computed, and has preserved the caller's buffers. -/
-theorem check_sound {α : Type} {c : Cfg} {p : List Stmt} {s t : St α} (hx : Exec c p s t) :
+theorem check_sound {α : Type} {G : RngGuard → Bool} {c : Cfg} {p : List Stmt} {s t : St α} (hx : Exec G c p s t) :
     ∀ (f : Nat) (e' : AEnv), nCaller ≤ s.heap.length → check c f p (absEnv s.env) = some e' →
       e' = absEnv t.env ∧ Preserved s t := by
   induction hx with
@@ -160,6 +160,13 @@ theorem check_sound {α : Type} {c : Cfg} {p : List Stmt} {s t : St α} (hx : Ex
           rw [this.2.2 k hk]
           exact List.getElem?_set_ne (by omega)
       · simp at hc
+  | @draw c g r s t n _ _ ih =>
+    intro f e' hn hc
+    cases f with
+    | zero => simp [check] at hc
+    | succ f =>
+      simp only [check] at hc
+      exact ih f e' hn hc
   | @call c fn args rets r s t0 env1 t _ hr _ ih1 ih2 =>
     intro f e' hn hc
     cases f with
@@ -201,6 +208,33 @@ theorem check_sound {α : Type} {c : Cfg} {p : List Stmt} {s t : St α} (hx : Ex
           exact ⟨r2.1, Preserved.trans r1.2 r2.2⟩
         · simp at hk
       · simp at hc
+
+/-- numpy's global generator is advanced only by a draw whose guard is on: if it moved, some guard of the instance
+    is on -/
+theorem rng_moves_only_under_guard {α : Type} {G : RngGuard → Bool} {c : Cfg} {p : List Stmt} {s t : St α}
+    (hx : Exec G c p s t) : s.rng ≤ t.rng ∧ (t.rng ≠ s.rng → ∃ g, G g = true) := by
+  induction hx with
+  | nil c s => exact ⟨Nat.le_refl _, fun h => absurd rfl h⟩
+  | alias _ _ ih => exact ih
+  | fresh _ _ ih => exact ih
+  | store _ _ _ ih => exact ih
+  | @draw c g r s t n hn _ ih =>
+    refine ⟨Nat.le_trans (Nat.le_add_right _ _) ih.1, fun hne => ?_⟩
+    by_cases hg : G g = true
+    · exact ⟨g, hg⟩
+    · have : n = 0 := hn (by simpa using hg)
+      subst this
+      exact ih.2 (by simpa using hne)
+  | @call c fn args rets r s t0 env1 t _ _ _ ih1 ih2 =>
+    refine ⟨Nat.le_trans ih1.1 ih2.1, fun hne => ?_⟩
+    by_cases h1 : t0.rng = s.rng
+    · exact ih2.2 (by simpa [h1] using hne)
+    · exact ih1.2 h1
+  | @callWin c ci args d r s t0 b t _ _ _ _ ih1 ih2 =>
+    refine ⟨Nat.le_trans ih1.1 ih2.1, fun hne => ?_⟩
+    by_cases h1 : t0.rng = s.rng
+    · exact ih2.2 (by simpa [h1] using hne)
+    · exact ih1.2 h1
 
 /-! ### complete finite tables: every settings branch of every debiaser -/
 
@@ -258,26 +292,29 @@ def witnessCfgs : List Cfg := [
 /-- complete finite table -/
 theorem sites_justified : sitesJ.all (justBacked witnessCfgs) = true := by decide +kernel
 
-/-- complete finite table -/
-theorem stores_listed_ls : ∀ e w, storesListed (.ls e w) = true := by decide +kernel
-/-- complete finite table -/
-theorem stores_listed_qm : ∀ e w d p, storesListed (.qm e w d p) = true := by decide +kernel
-/-- complete finite table -/
-theorem stores_listed_ecdfm : ∀ e w, storesListed (.ecdfm e w) = true := by decide +kernel
-/-- complete finite table -/
-theorem stores_listed_cdft : ∀ e w y s h, storesListed (.cdft e w y s h) = true := by decide +kernel
-/-- complete finite table -/
-theorem stores_listed_qdm : ∀ e w y z, storesListed (.qdm e w y z) = true := by decide +kernel
-/-- complete finite table -/
-theorem stores_listed_sdm : ∀ e w r, storesListed (.sdm e w r) = true := by decide +kernel
-/-- complete finite table -/
-theorem stores_listed_dc : ∀ e w, storesListed (.dc e w) = true := by decide +kernel
-/-- complete finite table -/
-theorem stores_listed_isimip : ∀ e w s, storesListed (.isimip e w s) = true := by decide +kernel
-/-- complete finite table -/
-theorem stores_listed_window : ∀ i d l u t m, storesListed (.isimipWindow i d l u t m) = true := by decide +kernel
+/-- the three static ties between programs and tables, checked together -/
+def tieOk (c : Cfg) : Bool := storesListed c && drawsListed c && helperCallsGuarded c
 
-theorem stores_listed (c : Cfg) : storesListed c = true := by
+/-- complete finite table -/
+theorem stores_listed_ls : ∀ e w, tieOk (.ls e w) = true := by decide +kernel
+/-- complete finite table -/
+theorem stores_listed_qm : ∀ e w d p, tieOk (.qm e w d p) = true := by decide +kernel
+/-- complete finite table -/
+theorem stores_listed_ecdfm : ∀ e w, tieOk (.ecdfm e w) = true := by decide +kernel
+/-- complete finite table -/
+theorem stores_listed_cdft : ∀ e w y s h, tieOk (.cdft e w y s h) = true := by decide +kernel
+/-- complete finite table -/
+theorem stores_listed_qdm : ∀ e w y z, tieOk (.qdm e w y z) = true := by decide +kernel
+/-- complete finite table -/
+theorem stores_listed_sdm : ∀ e w r, tieOk (.sdm e w r) = true := by decide +kernel
+/-- complete finite table -/
+theorem stores_listed_dc : ∀ e w, tieOk (.dc e w) = true := by decide +kernel
+/-- complete finite table -/
+theorem stores_listed_isimip : ∀ e w s, tieOk (.isimip e w s) = true := by decide +kernel
+/-- complete finite table -/
+theorem stores_listed_window : ∀ i d l u t m, tieOk (.isimipWindow i d l u t m) = true := by decide +kernel
+
+theorem tie_ok (c : Cfg) : tieOk c = true := by
   cases c with
   | ls e w => exact stores_listed_ls e w
   | qm e w d p => exact stores_listed_qm e w d p
@@ -288,5 +325,18 @@ theorem stores_listed (c : Cfg) : storesListed c = true := by
   | dc e w => exact stores_listed_dc e w
   | isimip e w s => exact stores_listed_isimip e w s
   | isimipWindow i d l u t m => exact stores_listed_window i d l u t m
+
+
+theorem stores_listed (c : Cfg) : storesListed c = true := by
+  have := tie_ok c; simp only [tieOk, Bool.and_eq_true] at this; exact this.1.1
+
+theorem draws_listed (c : Cfg) : drawsListed c = true := by
+  have := tie_ok c; simp only [tieOk, Bool.and_eq_true] at this; exact this.1.2
+
+theorem helper_calls_guarded (c : Cfg) : helperCallsGuarded c = true := by
+  have := tie_ok c; simp only [tieOk, Bool.and_eq_true] at this; exact this.2
+
+/-- complete finite table -/
+theorem draws_backed : drawsBacked witnessCfgs = true := by decide +kernel
 
 end Lemmas.Purity
